@@ -64,6 +64,17 @@ def check(run):
                 p.append(dict(op="Peek", arg=0))
             p += [dict(op=rem, arg=0), dict(op="Peek", arg=0)]
             plans.append(p)
+    # other element types: size 0 (struct{}: all values equal, written 0), 200 bytes, strings with the empty string
+    for ty in ("empty", "big", "string"):
+        for kind in ("queue", "stack"):
+            ins, rem = ("Enqueue", "Dequeue") if kind == "queue" else ("Push", "Pop")
+            for rep in range(3 if run.quick() else 12):
+                p = [dict(op="Reset", kind=kind, ty=ty)]
+                vals = (lambda: 0) if ty == "empty" else (lambda: run.rng.randint(0, 9))
+                for j in range(run.rng.randint(5, 80)):
+                    r = run.rng.random()
+                    p.append(dict(op=ins, arg=vals()) if r < 0.55 else dict(op=rem, arg=0) if r < 0.9 else dict(op="Peek", arg=0))
+                plans.append([p[0], dict(op=rem, arg=0), dict(op="Peek", arg=0)] + p[1:])
     # "an empty container stays empty and usable", at every fill count (block / chunk boundaries): fill to n, drain to empty, probe the
     # empty container with either call, then use it again; per-n fresh containers and one container that goes through all n in a row
     top = 140 if run.quick() else 600
